@@ -267,6 +267,15 @@ def c10_run(rep, rng, tier, term):
             if s.base_str != t:
                 viol.append({'oracle': 'C10.receiver', 'case': payload, 'msg': '%s changed the receiver text' % name})
                 break
+    # endswith also takes a TUPLE of suffixes; AnsiStr items in it stand for their text like a single AnsiStr argument
+    for t in ('abc', 'abcb', '', 'b'):
+        for cls in (AnsiString, AnsiStr):
+            for tup, plain in (((AnsiStr('b', 'red'), 'zz'), ('b', 'zz')), (('x', AnsiStr('c')), ('x', 'c')), ((AnsiStr('bc', 'bold'),), ('bc',)), ((AnsiStr('', 'red'), 'q'), ('', 'q'))):
+                payload = {'class': cls.__name__, 'text': t, 'method': 'endswith', 'args': [list(plain)], 'suffixes given as': 'tuple with AnsiStr items'}
+                rep.count(payload, True)
+                got, want = call(lambda: cls(t).endswith(tup)), call(lambda: t.endswith(plain))
+                if got != want:
+                    viol.append({'oracle': 'C10.endswith', 'case': payload, 'msg': 'endswith(%r) on %r gives %s, str.endswith(%r) gives %s' % (plain, t, got, plain, want)})
     # A method that no longer has the syntactic delegating shape is NOT an alarm by itself (a loop with setattr, a decorator or a
     # shared helper delegate just as well): the tie for these methods is the differential run above, which calls every one of
     # them on every generated text and compares with str.  The shape report is kept in the evidence.
